@@ -81,25 +81,26 @@ def short_steps(steps):
 
 
 def refit_lineage(r):
-    """step (1-based) -> True when a C++ object that was fitted more than once is involved: the object fitted or
-    copied at that step, or the object applied at that step, or the producer of an array in the ancestry of its input."""
+    """(by step, by array): option of a C++ object that was fitted more than once and is involved -- the object
+    fitted or copied at that step, the object applied at that step, or the producer of an array in the ancestry
+    of its input; None when no re-fitted object is involved."""
     out = {}
-    state = {"o": False, "c": False}
+    state = {"o": None, "c": None}
     taint = []
     for i, (st, ob) in enumerate(zip(r["steps"], r["obs"])):
         if st["op"] == "fit":
-            state["o"] = bool(ob.get("reused", False))
+            state["o"] = st["opt"] if ob.get("reused", False) else None
             out[i + 1] = state["o"]
         elif st["op"] == "copy":
             state["c"] = state["o"]
             out[i + 1] = state["o"]
         else:
-            t = state.get(st["who"], False)
-            if st["src"]["t"] == "a":
-                t = t or taint[st["src"]["a"] - 1]
+            t = state.get(st["who"])
+            if t is None and st["src"]["t"] == "a":
+                t = taint[st["src"]["a"] - 1]
             taint.append(t)
             out[i + 1] = t
-    return out
+    return out, taint
 
 
 def explore(ck, plan, stats, workers):
@@ -156,9 +157,12 @@ def explore(ck, plan, stats, workers):
         r = byid[rj["id"]]
         cs = cases[rj["id"]]
         for f in rj["fails"]:
-            reused = refit_lineage(r).get(f["step"], False)
+            bystep, byarr = refit_lineage(r)
+            ropt = bystep.get(f["step"])
+            if ropt is None and f["tag"] == "same" and f["j"] >= 1:      # the array it is compared with
+                ropt = byarr[f["j"] - 1]
             rec = {"kind": rj["kind"], "sig": "%s:%s" % (f["tag"], f["name"]), "op": f["op"], "opt": f["opt"],
-                   "refit_same_object": reused, "masked": f["masked"], "hasna": f["hasna"], "e": f["e"],
+                   "refit_same_object": ropt is not None, "refit_opt": ropt, "masked": f["masked"], "hasna": f["hasna"], "e": f["e"],
                    "base": f["base"], "fitdata": f["fitdata"], "step": f["step"], "array": f["k"]}
             used = sorted(set([f["base"], f["fitdata"]] + [s["data"] for s in cs["steps"] if s["op"] == "fit"]) & set(data["data"].keys()))
             replay = {"plan": {k: v for k, v in plan.items() if k != "exe"}, "scenario": short_steps(cs["steps"]), "case": cs, "observed": r,
